@@ -103,7 +103,8 @@ func main() {
 		must(del.WriteDeleteTsids(ids))
 	}
 	afterDrop := count(nil)
-	must(b.DropSeries()) // the purge task
+	del.DebugFlush()     // the dropped ids reach a part of the deleted-series table (its periodic flush does that within seconds)
+	must(b.DropSeries()) // the purge task: a complete pass discards those flushed ids
 	afterPurge := count(nil)
 	must(idx.ClearCache())
 	lostKey, lostTag, lostZone := []string{}, []string{}, 0
